@@ -237,7 +237,7 @@ package server
 //@   ensures [C19:unknown-address] !(isUDP(req.SrcAddr) || isTCP(req.SrcAddr)) ==> pktWrites == old(pktWrites) && res != nil
 
 //@      // ---- STUN dispatch (C09, C19): unknown comprehension-required attributes are answered 420 with the same method and id
-//@ spec func tcpReady(req Request) bool = ownTCPReady(req) && req.AllocationManager.allocateConn != nil && allocsNonNil(req.AllocationManager) && (forall k :: haskey(req.AllocationManager.allocations, k) ==> tcpConnsWF(valat(req.AllocationManager.allocations, k))) && (typeis(req.Conn, *proto.STUNConn) ==> req.Conn.(*proto.STUNConn).nextConn != nil)
+//@ spec func tcpReady(req Request) bool = ownTCPReady(req) && req.AllocationManager.allocateConn != nil && allocsNonNil(req.AllocationManager) && (forall k :: haskey(req.AllocationManager.allocations, k) ==> tcpConnsWF(valat(req.AllocationManager.allocations, k)) && valat(req.AllocationManager.allocations, k).log != nil) && (typeis(req.Conn, *proto.STUNConn) ==> req.Conn.(*proto.STUNConn).nextConn != nil)
 //@ func handleTURNPacket
 //@   requires reqWF(req) && ownWF(req) && ownCloseReady(req) && req.NonceHash != nil && req.SrcAddr != nil && mgrReady(req.AllocationManager) && tcpReady(req)
 //@   at-call buildAndSend assert [C19:a] isResponseList(arg2)
